@@ -243,6 +243,33 @@ class Engine:
         self.oblige(p, 'policy/table %s is accessed at [self.%s] only: %s' % (tbl, self.policy_conf()['key'], self.src(node)[:60]),
                     k == own, 'policy')
 
+    def policy_object(self, p, r, what, node=None):
+        """C19, object level: protocol code reads and writes request objects (the classes ACCESS_POLICY['tagged']) only
+        if they are untagged (fresh) or tagged with self.<key>; checked once per object term and path"""
+        if not self.policy_on():
+            return
+        conf = self.policy_conf()
+        classes = conf.get('tagged')
+        if not classes:
+            return
+        if r.cls is not None and r.cls not in classes:
+            return
+        if self.policy_self.t.eq(r.t):
+            return
+        key = 'nf:%d' % r.t.get_id()
+        if key in p.ghost:
+            return
+        p.ghost = dict(p.ghost)
+        p.ghost[key] = r.t          # keeps the term alive
+        tagv = load_value(p, conf['tag'], r.t)
+        own = load_value(p, conf['key'], self.policy_self.t)
+        ok = z3.Or(z3.Not(tagv.is_('obj')), tagv.t == own.t)
+        if r.cls is None:
+            cls = z3.Select(harr(p, '$cls'), r.t)
+            ok = z3.Implies(z3.Or(*[cls == cls_code(c) for c in classes]), ok)
+        self.oblige(p, 'policy/request objects of another address are never touched: %s %s' % (what, (self.src(node)[:50] if node is not None else '')),
+                    ok, 'policy')
+
     def policy_escape(self, p, v, what):
         tbl = getattr(v, 'outer', None)
         if tbl is None or not self.policy_on():
